@@ -1,30 +1,34 @@
+(* Laws of the filename / tag model (C14), part 1: Python string helpers, Tag, parse_tag. *)
 From Coq Require Import List Arith NArith Bool Lia.
 Import ListNotations.
-Require Import S1 VParse VComplete VTop VTop2 VDec Py VMeaning VCanon VCanon2 VCanon3 VCmp SpecModel SpecOps Prefix Prefix2.
+Require Import S1 VParse VComplete VTop VDec Py VMeaning SpecModel Names NamesSpec NamesAscii NamesLaws WheelModel.
 Open Scope N_scope.
 Arguments N.eqb : simpl never.
 Arguments N.leb : simpl never.
 
 (* ---------------- str helpers ---------------- *)
-Fixpoint count_c (c0 : char) (s : str) : nat := match s with [] => O | c :: t => ((if N.eqb c c0 then 1 else 0) + count_c c0 t)%nat end.
+Lemma nochar_app c0 a b : nochar c0 (a ++ b) = nochar c0 a && nochar c0 b.
+Proof. apply forallb_app. Qed.
+Lemma nochar_cons c0 x a : nochar c0 (x :: a) = negb (x =? c0) && nochar c0 a.
+Proof. reflexivity. Qed.
 Lemma count_app c0 a b : count_c c0 (a ++ b) = (count_c c0 a + count_c c0 b)%nat.
-Proof. induction a; cbn; auto. rewrite IHa. lia. Qed.
+Proof. induction a; cbn [app count_c]; auto. rewrite IHa. lia. Qed.
 Lemma count_nochar c0 s : nochar c0 s = true -> count_c c0 s = O.
 Proof.
-  induction s as [|c t IH]; cbn; auto. intros H. apply andb_prop in H as [H1 H2]. apply negb_true_iff in H1. rewrite H1.
-  unfold nochar in IH. now rewrite IH.
+  induction s as [|c t IH]; cbn [count_c]; auto. rewrite nochar_cons. intros H. apply andb_prop in H as [H1 H2]. apply negb_true_iff in H1.
+  rewrite H1. now rewrite IH.
 Qed.
-(* str.split(sep, maxsplit) *)
-Fixpoint split_max (c0 : char) (k : nat) (s : str) : list str :=
-  match k with
-  | O => [s]
-  | S k' =>
-      (fix go (cur s : str) : list str :=
-         match s with
-         | [] => [rev cur]
-         | c :: t => if c =? c0 then rev cur :: split_max c0 k' t else go (c :: cur) t
-         end) [] s
-  end.
+Lemma count_zero c0 s : count_c c0 s = O -> nochar c0 s = true.
+Proof.
+  induction s as [|c t IH]; cbn [count_c]; auto. rewrite nochar_cons. destruct (c =? c0); [discriminate|]. cbn [negb andb plus]. exact IH.
+Qed.
+Lemma count_split c0 s n : count_c c0 s = S n -> exists a b, s = a ++ c0 :: b /\ nochar c0 a = true /\ count_c c0 b = n.
+Proof.
+  induction s as [|c t IH]; cbn [count_c]; [discriminate|]. destruct (c =? c0) eqn:E.
+  - apply N.eqb_eq in E. subst c. intros [= H]. exists [], t. auto.
+  - cbn [plus]. intros H. destruct (IH H) as (a & b & -> & Ha & Hb). exists (c :: a), b. rewrite nochar_cons, E, Ha. auto.
+Qed.
+
 Lemma split_max_go c0 k' : forall a cur b, nochar c0 a = true ->
   (fix go (cur s : str) : list str :=
      match s with [] => [rev cur] | c :: t => if c =? c0 then rev cur :: split_max c0 k' t else go (c :: cur) t end) cur (a ++ c0 :: b)
@@ -32,64 +36,194 @@ Lemma split_max_go c0 k' : forall a cur b, nochar c0 a = true ->
 Proof.
   induction a as [|x a IH]; intros cur b H; cbn [app].
   - rewrite N.eqb_refl. now rewrite app_nil_r.
-  - cbn [nochar forallb] in H. apply andb_prop in H as [H1 H2]. apply negb_true_iff in H1. rewrite H1.
-    unfold nochar in IH. rewrite IH by assumption. cbn [rev]. now rewrite <- app_assoc.
+  - rewrite nochar_cons in H. apply andb_prop in H as [H1 H2]. apply negb_true_iff in H1. rewrite H1.
+    rewrite IH by assumption. cbn [rev]. now rewrite <- app_assoc.
 Qed.
 Lemma split_max_step c0 k a b : nochar c0 a = true -> split_max c0 (S k) (a ++ c0 :: b) = a :: split_max c0 k b.
 Proof. intros H. cbn [split_max]. now rewrite split_max_go. Qed.
 
-(* ---------------- the wheel file name: "{name}-{version}(-{build})?-{py}-{abi}-{plat}.whl" ---------------- *)
-Definition dash := 45.
-Definition w_whl : str := [46; 119; 104; 108].
-Definition ends_with (suf s : str) : bool := VMeaning.str_eqb (skipn (length s - length suf) s) suf.
-Definition stem_of (s : str) : str := firstn (length s - 4) s.
+Lemma split_all_none c0 s : nochar c0 s = true -> split_all c0 s = [s].
+Proof.
+  induction s as [|c t IH]; cbn [split_all]; auto. rewrite nochar_cons. intros H. apply andb_prop in H as [H1 H2].
+  apply negb_true_iff in H1. rewrite H1. now rewrite IH.
+Qed.
+Lemma split_all_app c0 a b : nochar c0 a = true -> split_all c0 (a ++ c0 :: b) = a :: split_all c0 b.
+Proof.
+  induction a as [|c t IH]; cbn [app split_all].
+  - now rewrite N.eqb_refl.
+  - rewrite nochar_cons. intros H. apply andb_prop in H as [H1 H2]. apply negb_true_iff in H1. rewrite H1. now rewrite IH.
+Qed.
+Lemma split_all_pieces c0 s : Forall (fun p => nochar c0 p = true) (split_all c0 s) /\ split_all c0 s <> [].
+Proof.
+  induction s as [|c t [IH1 IH2]]; cbn [split_all]; [split; [repeat constructor|discriminate]|].
+  destruct (c =? c0) eqn:E; [split; [constructor; auto|discriminate]|].
+  destruct (split_all c0 t) as [|h r]; [congruence|]. inversion IH1; subst. split; [|discriminate].
+  constructor; auto. now rewrite nochar_cons, E.
+Qed.
+Lemma split_all_length c0 s : length (split_all c0 s) = S (count_c c0 s).
+Proof.
+  induction s as [|c t IH]; cbn [split_all count_c]; [reflexivity|]. destruct (c =? c0); cbn [length plus]; [now rewrite IH|].
+  pose proof (split_all_pieces c0 t) as [_ NE]. destruct (split_all c0 t); [congruence|]. exact IH.
+Qed.
+(* "c0".join(parts) *)
+Fixpoint join_c (c0 : char) (l : list str) : str :=
+  match l with [] => [] | x :: t => match t with [] => x | _ => x ++ c0 :: join_c c0 t end end.
+Lemma split_all_join c0 l : l <> [] -> Forall (fun p => nochar c0 p = true) l -> split_all c0 (join_c c0 l) = l.
+Proof.
+  induction l as [|x t IH]; [congruence|]. intros _ H. inversion H; subst. cbn [join_c]. destruct t as [|y t'].
+  - now apply split_all_none.
+  - rewrite split_all_app by assumption. f_equal. apply IH; auto. discriminate.
+Qed.
+Lemma join_c_nochar c0 c1 l : (c1 =? c0) = false -> Forall (fun p => nochar c0 p = true) l -> nochar c0 (join_c c1 l) = true.
+Proof.
+  intros E. induction l as [|x t IH]; [reflexivity|]. intros H. inversion H; subst. cbn [join_c]. destruct t as [|y t']; [assumption|].
+  rewrite nochar_app, nochar_cons, E, IH by assumption. now rewrite H2.
+Qed.
 
-Record wheel := { w_name : str; w_ver : str; w_build : option str; w_py : str; w_abi : str; w_plat : str }.
-Definition encode (w : wheel) : str :=
-  w_name w ++ dash :: w_ver w ++ match w_build w with Some b => dash :: b | None => [] end ++
-  dash :: w_py w ++ dash :: w_abi w ++ dash :: w_plat w ++ w_whl.
-(* the structural part of parse_wheel_filename: extension, dash count, split from the left with maxsplit = dashes - 2 *)
-Definition split_wheel (fn : str) : option (list str) :=
-  if negb (ends_with w_whl fn) then None else
-  let stem := stem_of fn in
-  let dashes := count_c dash stem in
-  if Nat.eqb dashes 4 || Nat.eqb dashes 5 then Some (split_max dash (dashes - 2) stem) else None.
+Lemma rpart_none c0 s : nochar c0 s = true -> rpart c0 s = None.
+Proof.
+  induction s as [|c t IH]; cbn [rpart]; auto. rewrite nochar_cons. intros H. apply andb_prop in H as [H1 H2]. apply negb_true_iff in H1.
+  now rewrite IH, H1.
+Qed.
+Lemma rpart_app c0 a b : nochar c0 b = true -> rpart c0 (a ++ c0 :: b) = Some (a, b).
+Proof.
+  intros Hb. induction a as [|c t IH]; cbn [app rpart].
+  - now rewrite rpart_none, N.eqb_refl.
+  - now rewrite IH.
+Qed.
+Lemma rpart_some c0 s a b : rpart c0 s = Some (a, b) -> s = a ++ c0 :: b /\ nochar c0 b = true.
+Proof.
+  revert a. induction s as [|c t IH]; intros a; cbn [rpart]; [discriminate|].
+  destruct (rpart c0 t) as [[a' b']|] eqn:E.
+  - intros [= <- <-]. destruct (IH a' eq_refl) as [-> H]. auto.
+  - destruct (c =? c0) eqn:Ec; [|discriminate]. intros [= <- <-]. apply N.eqb_eq in Ec. subst c. split; [reflexivity|].
+    clear IH. induction t as [|x t IHt]; [reflexivity|]. cbn [rpart] in E. destruct (rpart c0 t) as [[? ?]|]; [discriminate|].
+    destruct (x =? c0) eqn:Ex; [discriminate|]. rewrite nochar_cons, Ex. now apply IHt.
+Qed.
 
-Definition wf_wheel (w : wheel) : Prop :=
-  nochar dash (w_name w) = true /\ nochar dash (w_ver w) = true /\
-  (match w_build w with Some b => nochar dash b = true | None => True end) /\
-  nochar dash (w_py w) = true /\ nochar dash (w_abi w) = true /\ nochar dash (w_plat w) = true.
-
-Lemma str_eqb_refl' s : VMeaning.str_eqb s s = true.
-Proof. induction s; cbn; auto. now rewrite N.eqb_refl. Qed.
+Lemma str_eqb_refl s : str_eqb s s = true.
+Proof. induction s; cbn [str_eqb]; auto. now rewrite N.eqb_refl. Qed.
+Lemma str_eqb_true a b : str_eqb a b = true -> a = b.
+Proof.
+  revert b. induction a as [|x a IH]; intros [|y b]; cbn [str_eqb]; try discriminate; auto.
+  intros H. apply andb_prop in H as [H1 H2]. apply N.eqb_eq in H1. subst. f_equal. now apply IH.
+Qed.
+Lemma str_eqb_iff a b : str_eqb a b = true <-> a = b.
+Proof. split; [apply str_eqb_true|intros ->; apply str_eqb_refl]. Qed.
 Lemma ends_with_app a suf : ends_with suf (a ++ suf) = true.
 Proof.
   unfold ends_with. rewrite app_length. replace (length a + length suf - length suf)%nat with (length a) by lia.
-  rewrite skipn_app, Nat.sub_diag, skipn_all. cbn. apply str_eqb_refl'.
+  rewrite skipn_app, Nat.sub_diag, skipn_all. cbn [skipn app]. apply str_eqb_refl.
 Qed.
-Lemma stem_app a : stem_of (a ++ w_whl) = a.
+Lemma drop_last_app a suf : drop_last (length suf) (a ++ suf) = a.
 Proof.
-  unfold stem_of. rewrite app_length. cbn [length w_whl]. replace (length a + 4 - 4)%nat with (length a) by lia.
-  rewrite firstn_app, Nat.sub_diag, firstn_all. cbn. now rewrite app_nil_r.
+  unfold drop_last. rewrite app_length. replace (length a + length suf - length suf)%nat with (length a) by lia.
+  rewrite firstn_app, Nat.sub_diag, firstn_all. cbn [firstn]. now rewrite app_nil_r.
+Qed.
+Lemma ends_with_split suf s : ends_with suf s = true -> s = drop_last (length suf) s ++ suf.
+Proof.
+  unfold ends_with, drop_last. intros H. apply str_eqb_true in H.
+  rewrite <- (firstn_skipn (length s - length suf) s) at 1. now rewrite H.
+Qed.
+Lemma ends_with_last suf s x y : ends_with (suf ++ [x]) (s ++ [y]) = true -> x = y.
+Proof.
+  intros H. apply ends_with_split in H. apply (f_equal (@rev N)) in H. rewrite !rev_app_distr in H. cbn [rev app] in H. now injection H.
 Qed.
 
-Definition tagpart (w : wheel) : str := w_py w ++ dash :: w_abi w ++ dash :: w_plat w.
-Theorem split_wheel_encode w : wf_wheel w ->
-  split_wheel (encode w) =
-  Some (w_name w :: w_ver w :: match w_build w with Some b => [b] | None => [] end ++ [tagpart w]).
+(* ---------------- str.lower() ---------------- *)
+Lemma lower_fixed c : Forall (fun x => py_lower_c x = [x]) (py_lower_c c).
 Proof.
-  intros (Hn & Hv & Hb & Hp & Ha & Hl). unfold split_wheel.
-  set (body := w_name w ++ dash :: w_ver w ++ match w_build w with Some b => dash :: b | None => [] end ++
-               dash :: w_py w ++ dash :: w_abi w ++ dash :: w_plat w).
-  assert (E : encode w = body ++ w_whl).
-  { unfold encode, body. repeat (rewrite <- ?app_assoc; cbn [app]). reflexivity. }
-  rewrite E, ends_with_app, stem_app. cbn [negb].
-  assert (C : count_c dash body = match w_build w with Some _ => 5%nat | None => 4%nat end).
-  { unfold body. repeat (rewrite ?count_app; cbn [count_c]). rewrite !N.eqb_refl.
-    rewrite !count_nochar by assumption. destruct (w_build w) as [b|]; cbn [count_c]; rewrite ?N.eqb_refl, ?count_nochar by assumption; cbn [app count_c]; lia. }
-  rewrite C. unfold body. destruct (w_build w) as [b|]; cbn [Nat.eqb orb Nat.sub app].
-  - rewrite split_max_step by assumption. rewrite split_max_step by assumption.
-    rewrite split_max_step by assumption. reflexivity.
-  - rewrite split_max_step by assumption. rewrite split_max_step by assumption. reflexivity.
+  destruct (is_sep c) eqn:E.
+  - rewrite (lower_sep c E). constructor; [now apply lower_sep|constructor].
+  - eapply Forall_impl; [|apply (lower_low c E)]. now intros x [_ H].
 Qed.
-Print Assumptions split_wheel_encode.
+Lemma py_lower_fixed s : Forall (fun x => py_lower_c x = [x]) s -> py_lower s = s.
+Proof. induction 1 as [|x s Hx _ IH]; [reflexivity|]. cbn [py_lower flat_map]. fold (py_lower s). now rewrite Hx, IH. Qed.
+Lemma py_lower_idem s : py_lower (py_lower s) = py_lower s.
+Proof.
+  apply py_lower_fixed. induction s as [|c s IH]; [constructor|]. cbn [py_lower flat_map]. apply Forall_app. split; [apply lower_fixed|exact IH].
+Qed.
+(* lower-casing creates no '-' and no '.' *)
+Lemma lower_nochar x c : (x = 45 \/ x = 46) -> (c =? x) = false -> nochar x (py_lower_c c) = true.
+Proof.
+  intros Hx Hc. unfold py_lower_c. destruct ((65 <=? c) && (c <=? 90)) eqn:U; [|destruct (c =? 304) eqn:E1; [|destruct (c =? 8490) eqn:E2]].
+  - rewrite nochar_cons. cbn [nochar forallb]. destruct Hx; subst x; bcase.
+  - destruct Hx; subst x; reflexivity.
+  - destruct Hx; subst x; reflexivity.
+  - rewrite nochar_cons, Hc. reflexivity.
+Qed.
+Lemma py_lower_nochar x s : (x = 45 \/ x = 46) -> nochar x s = true -> nochar x (py_lower s) = true.
+Proof.
+  intros Hx. induction s as [|c s IH]; [reflexivity|]. rewrite nochar_cons. intros H. apply andb_prop in H as [H1 H2]. apply negb_true_iff in H1.
+  cbn [py_lower flat_map]. fold (py_lower s). rewrite nochar_app, lower_nochar, IH; auto.
+Qed.
+
+(* ---------------- Tag ---------------- *)
+Lemma mk_tag_lowered i a p : mk_tag (py_lower i) (py_lower a) (py_lower p) = mk_tag i a p.
+Proof. unfold mk_tag. now rewrite !py_lower_idem. Qed.
+Lemma mk_tag_fields i a p : let t := mk_tag i a p in mk_tag (t_interp t) (t_abi t) (t_plat t) = t.
+Proof. apply mk_tag_lowered. Qed.
+Lemma tag_eq_iff h x y : tag_eq h x y = true <-> x = y.
+Proof.
+  unfold tag_eq. split.
+  - intros H. apply andb_prop in H as [H Hi]. apply andb_prop in H as [H Ha]. apply andb_prop in H as [_ Hp].
+    apply str_eqb_true in Hi, Ha, Hp. destruct x, y; cbn in *. congruence.
+  - intros ->. now rewrite N.eqb_refl, !str_eqb_refl.
+Qed.
+Lemma mk_tag_eq_iff i a p i' a' p' :
+  mk_tag i a p = mk_tag i' a' p' <-> py_lower i = py_lower i' /\ py_lower a = py_lower a' /\ py_lower p = py_lower p'.
+Proof. unfold mk_tag. split; [intros [= -> -> ->]; auto|intros (-> & -> & ->); reflexivity]. Qed.
+(* ASCII upper-casing of a field does not change the tag *)
+Definition upper_a (c : char) : char := if is_lower c then c - 32 else c.
+Lemma lower_upper_a c : py_lower_c (upper_a c) = py_lower_c c.
+Proof.
+  unfold upper_a, is_lower. destruct ((97 <=? c) && (c <=? 122)) eqn:L; [|reflexivity]. unfold py_lower_c.
+  assert (E1 : (65 <=? c - 32) && (c - 32 <=? 90) = true) by bcase. assert (E2 : (65 <=? c) && (c <=? 90) = false) by bcase.
+  assert (E3 : (c =? 304) = false) by bcase. assert (E4 : (c =? 8490) = false) by bcase. rewrite E1, E2, E3, E4. f_equal. bcase.
+Qed.
+Lemma py_lower_upper s : py_lower (map upper_a s) = py_lower s.
+Proof. induction s as [|c s IH]; [reflexivity|]. cbn [map py_lower flat_map]. fold (py_lower (map upper_a s)) (py_lower s). now rewrite lower_upper_a, IH. Qed.
+
+(* ---------------- parse_tag ---------------- *)
+Lemma parse_tag_encode py abi plat : nochar 45 py = true -> nochar 45 abi = true -> nochar 45 plat = true ->
+  parse_tag (py ++ 45 :: abi ++ 45 :: plat) = FOk (tag_product (split_all 46 py) (split_all 46 abi) (split_all 46 plat)).
+Proof.
+  intros H1 H2 H3. unfold parse_tag. rewrite split_all_app by assumption. rewrite split_all_app by assumption. now rewrite split_all_none.
+Qed.
+Lemma parse_tag_ok_iff s : (exists ts, parse_tag s = FOk ts) <-> count_c 45 s = 2%nat.
+Proof.
+  unfold parse_tag. pose proof (split_all_length 45 s) as L. split.
+  - intros [ts H]. destruct (split_all 45 s) as [|a [|b [|c [|d r]]]]; try discriminate. cbn [length] in L. lia.
+  - intros C. rewrite C in L. destruct (split_all 45 s) as [|a [|b [|c [|d r]]]]; cbn [length] in L; try lia. eauto.
+Qed.
+Lemma in_tag_product t is_ as_ ps : In t (tag_product is_ as_ ps) <-> exists i a p, In i is_ /\ In a as_ /\ In p ps /\ t = mk_tag i a p.
+Proof.
+  unfold tag_product. rewrite in_flat_map. split.
+  - intros (i & Hi & H). apply in_flat_map in H as (a & Ha & H). apply in_map_iff in H as (p & <- & Hp). eauto 8.
+  - intros (i & a & p & Hi & Ha & Hp & ->). exists i. split; auto. apply in_flat_map. exists a. split; auto. apply in_map_iff. eauto.
+Qed.
+(* parse_tag(str(t)) = {t} for a tag whose fields contain neither '-' nor '.' *)
+Lemma parse_tag_str i a p :
+  nochar 45 i = true -> nochar 46 i = true -> nochar 45 a = true -> nochar 46 a = true -> nochar 45 p = true -> nochar 46 p = true ->
+  parse_tag (tag_str (mk_tag i a p)) = FOk [mk_tag i a p].
+Proof.
+  intros I1 I2 A1 A2 P1 P2. unfold tag_str. cbn [mk_tag t_interp t_abi t_plat].
+  rewrite parse_tag_encode by (apply py_lower_nochar; auto).
+  rewrite !split_all_none by (apply py_lower_nochar; auto). cbn [tag_product flat_map map app]. now rewrite mk_tag_lowered.
+Qed.
+(* every member of a parsed tag set is such a tag *)
+Lemma parse_tag_members s ts t : parse_tag s = FOk ts -> In t ts -> parse_tag (tag_str t) = FOk [t].
+Proof.
+  unfold parse_tag. destruct (split_all 45 s) as [|x [|y [|z [|w r]]]] eqn:E; try discriminate. intros [= <-] H.
+  apply in_tag_product in H as (i & a & p & Hi & Ha & Hp & ->).
+  pose proof (split_all_pieces 45 s) as [F _]. rewrite E in F. inversion F as [|? ? Fx F1]; subst. inversion F1 as [|? ? Fy F2]; subst. inversion F2 as [|? ? Fz _]; subst.
+  assert (G : forall u part, nochar 45 part = true -> In u (split_all 46 part) -> nochar 45 u = true /\ nochar 46 u = true).
+  { intros u part Hp' Hu. pose proof (split_all_pieces 46 part) as [F46 _]. rewrite Forall_forall in F46. split; [|now apply F46].
+    clear F46. revert u Hu. induction part as [|c part IHp]; cbn [split_all].
+    - intros u [<-|[]]. reflexivity.
+    - rewrite nochar_cons in Hp'. apply andb_prop in Hp' as [Hc Hp']. destruct (c =? 46).
+      + intros u [<-|Hu]; [reflexivity|now apply IHp].
+      + pose proof (split_all_pieces 46 part) as [_ NE]. destruct (split_all 46 part) as [|h r]; [congruence|].
+        intros u [<-|Hu]; [|apply IHp; auto; now right]. rewrite nochar_cons, Hc. apply IHp; auto. now left. }
+  destruct (G i x Fx Hi), (G a y Fy Ha), (G p z Fz Hp). now apply parse_tag_str.
+Qed.
